@@ -400,3 +400,118 @@ def c10(v, tier, seed):
                      "random lists validated by VssTrace" % (2 if q else 3))
     v.cov["distinct_nontrivial"] = len(res.emitted)
     v.cov["exhaustive"] = True
+
+
+def bo_cfg(size, branch, full16):
+    return ("SPECIFICATION Spec\nCONSTANTS\n  Size = %d\n  Branch = \"%s\"\n  MemHost = \"LE\"\n  Full16 = %s\nCONSTRAINT Emit\nINVARIANT T11\nCHECK_DEADLOCK FALSE\n"
+            % (size, branch, "TRUE" if full16 else "FALSE"))
+
+
+@check("C13")
+def c13(v, tier, seed):
+    import sys as _s
+    if _s.byteorder != "little":
+        raise Infra("this check models the sandbox as a little-endian host")
+    rnd = random.Random(seed)
+    wd = workdir()
+    q = tier == "quick"
+    exs = {"LE": Executor(build_exec(wd, "O2"), wd), "BE": Executor(build_exec(wd, "be"), wd)}
+    fns = ("CpuToBe", "BeToCpu", "CpuToLe", "LeToCpu", "Bswap")
+    nrep = 0
+    for branch in ("LE", "BE"):
+        for size in (2, 4, 8):
+            res = run_tlc("GenBo", bo_cfg(size, branch, size == 2 and (branch == "LE" or not q)), wd)
+            v.add_tlc("GenBo/%s/%d" % (branch, 8 * size), res)
+            if not res.ok: raise Infra("ByteOrder violates T11:\n" + (res.violation or "")[-1200:])
+            cmds = ["BO %s %d %s" % (e["fn"], e["size"], hexs(e["x"])) for e in res.emitted]
+            outs = exs[branch].run_robust(cmds)
+            for e, line in zip(res.emitted, outs):
+                t = dict(x.split("=") for x in line.split()[2:]) if line.startswith("R ok") else {}
+                key = "bo fn=%s%d branch=%s" % (e["fn"], 8 * size, branch)
+                if t.get("val") != hexs(e["val"]) or t.get("img") != hexs(e["img"]):
+                    v.violation(key, "Avtp_%s%d(0x%s) in the %s-endian helper set: value %s image %s, specification value %s image %s" % (
+                        e["fn"], 8 * size, hexs(e["x"]), "little" if branch == "LE" else "big", t.get("val"), t.get("img"), hexs(e["val"]), hexs(e["img"])),
+                        {"vector": e, "observed": line})
+            nrep += len(cmds)
+            if res.emitted: v.sample({"tlc_transition": res.emitted[len(res.emitted) // 2]})
+    v.cov["evaluations"] += nrep; v.cov["replayed_transitions"] = nrep
+    # trace direction: random 16/32/64-bit values through both builds
+    evs, cmds = {"LE": [], "BE": []}, {"LE": [], "BE": []}
+    n = 12000 if q else 300000
+    for _ in range(n):
+        b = rnd.choice(("LE", "BE")); size = rnd.choice((2, 4, 8)); fn = rnd.choice(fns)
+        x = [rnd.randrange(256) for _ in range(size)]
+        cmds[b].append("BO %s %d %s" % (fn, size, hexs(x))); evs[b].append({"e": "bo", "fn": fn, "size": size, "branch": b, "mem": "LE", "x": x})
+    done = []
+    for b in ("LE", "BE"):
+        outs = exs[b].run_robust(cmds[b])
+        for e, line in zip(evs[b], outs):
+            if not line.startswith("R ok"): raise Infra("executor: " + line)
+            t = dict(x.split("=") for x in line.split()[2:])
+            done.append(dict(e, val=unhexs(t["val"]), img=unhexs(t["img"])))
+    rnd.shuffle(done)
+    v.cov["evaluations"] += len(done)
+    cfgt = open(os.path.join(SPEC, "BoTrace.cfg")).read()
+    pdu.validate_events(v, wd, pdu.shard(done, 6 if q else 16), "C13", "random-values", module="BoTrace", cfg=cfgt,
+                        keyfn=lambda e: "bo fn=%s%d branch=%s kind=trace" % (e["fn"], 8 * e["size"], e["branch"]))
+    v.sample({"trace_event": done[0]})
+    v.cov["rule"] = ("TLC: all 2^16 values for the 16-bit helpers; for 32/64 bit every (byte position x byte value) on 3 backgrounds + walking bits; 5 functions x 3 widths x "
+                     "both compile-time branches (native and forced big-endian); result values and memory images compared; T11/Mirror on the model; random values validated by BoTrace")
+    v.cov["distinct_nontrivial"] = nrep
+
+
+ALL_OFFS = list(range(32))
+ALL_WS = list(range(65))
+
+def shape_sweep(v, wd, ex, pid, rnd, q, tag, memhost="LE", branch="LE"):
+    import hostx
+    ws = [0, 1, 2, 7, 8, 9, 15, 16, 17, 24, 29, 31, 32, 33, 40, 48, 63, 64] if q else ALL_WS
+    res = run_tlc("GenImpl", hostx.impl_cfg([0, 1], ALL_OFFS, ws, memhost, branch), wd)
+    v.add_tlc("GenImpl/shapes %s/%s" % (memhost, branch), res)
+    if not res.ok: raise Infra("GenericImpl violates T7:\n" + (res.violation or "")[-1200:])
+    st = hostx.raw_replay(v, ex, res.emitted, rnd, tag)
+    v.cov["evaluations"] += st["executed"]
+    v.cov.setdefault("replayed_transitions", 0); v.cov["replayed_transitions"] += len(res.emitted)
+    v.sample({"tlc_transition": res.emitted[len(res.emitted) // 2]})
+
+
+@check("C14")
+def c14(v, tier, seed):
+    import hostx, can, vss
+    rnd = random.Random(seed)
+    wd = workdir()
+    q = tier == "quick"
+    ex_n = Executor(build_exec(wd, "O2"), wd)
+    ex_x = Executor(build_exec(wd, "be"), wd)
+    bind = Bind(ex_x.describe())
+    # (1) T7 / HostIndependent on the model, and the native build follows GenericImpl(LE, LE)
+    shape_sweep(v, wd, ex_n, "C14", rnd, q, "native")
+    # (2) the crossed build (big-endian helper set on little-endian memory) follows GenericImpl(LE, BE)
+    shape_sweep(v, wd, ex_x, "C14", rnd, q, "crossed", "LE", "BE")
+    groups = [ALL_VIEWS[i::3] for i in range(3)] if q else [[x] for x in ALL_VIEWS]
+    for scn in ("fields", "init", "can", "vss"):
+        for gi, g in enumerate(groups if scn in ("fields", "init") else [ALL_VIEWS[:1]]):
+            res = run_tlc("GenX", hostx.x_cfg(scn, g, "LE", "BE"), wd)
+            v.add_tlc("GenX/%s[%d]" % (scn, gi), res)
+            if not res.ok: raise Infra("HostModel violates HostIndependence (%s):\n%s" % (scn, (res.violation or "")[-1500:]))
+            vecs = res.emitted
+            for x in vecs:
+                x.setdefault("path", "generic"); x.setdefault("id", ""); x.setdefault("rc", 0); x.setdefault("out", [165, 90] * 4)
+            if scn in ("fields", "init"):
+                full = []
+                for x in vecs:
+                    paths = ("generic", "dedicated") if scn == "fields" else ("current",)
+                    for p in paths:
+                        y = dict(x, path=p); full.append(y)
+                st = pdu.replay(v, ex_x, bind, full, "C14", tier, rnd)
+            elif scn == "can":
+                st = can.replay(v, ex_x, [dict(x, ret=(len(x["post"]) - 5 if x["kind"] == "brief" else 0)) for x in vecs], rnd)
+            else:
+                st = vss.replay(v, ex_x, vecs, rnd)
+            v.cov["evaluations"] += st["executed"]; v.cov["replayed_transitions"] += len(vecs)
+            if vecs: v.sample({"crossed_transition": {k: (vecs[0][k] if len(str(vecs[0][k])) < 200 else "...") for k in vecs[0]}})
+    v.cov["rule"] = ("model: T7 (quadlet walk = bit semantics on both hosts) over every descriptor shape, HostIndependence for named fields, initialisers, CAN builders "
+                     "and the VSS codec; binding: native build replay of the shape sweep and crossed build (forced big-endian helper set on little-endian memory) replay "
+                     "of shapes, every named field x 2 paths, initialisers, CAN builds and VSS put/get, compared with the model's prediction for (host=LE, branch=BE)")
+    v.cov["distinct_nontrivial"] = v.cov.get("replayed_transitions", 0)
+    v.assumptions.append("no big-endian execution platform exists in the sandbox: big-endian memory is modelled (Store/Load), the big-endian helper set is executed on little-endian memory")
